@@ -183,7 +183,7 @@ Proof.
     set (w2 := set_w_hold (N.min (w_hold w1) hold) w1).
     assert (H2 : P w2) by (revert H1; apply A_frame; reflexivity). clearbody w2.
     eapply A_frame; [reflexivity|].
-    destruct (_ && _); [apply (napres_open_message_error P OK)|]; exact H2. }
+    destruct (hold_refused _ _); [apply (napres_open_message_error P OK)|]; exact H2. }
   destruct (ty =? c_MSG_UPDATE).
   { unfold update_received. destruct (d_update D _ msg); cbn [snd]; [ | | exact H];
       apply (napres_update_received0 P OK), A_upd, A_emit; exact H. }
